@@ -22,7 +22,7 @@ inductive OkE : Nat → PExpr → Prop
   | len {ctx e} : OkE ctx e → OkE ctx (.len e)
   | index {ctx e i} : OkE ctx e → OkE ctx i → OkE ctx (.index e i)
   | un {ctx op e} : OkE ctx e → OkE ctx (.un op e)
-  | is_ {ctx e t} : OkE ctx e → OkE ctx (.is_ e t)
+  | is_ {ctx e t} : OkE ctx e → tgtOK t = true → OkE ctx (.is_ e t)
   | bin {ctx op l r} : OkE ctx l → OkE ctx r → OkE ctx (.bin op l r)
   | spec {ctx l r} : has ctx "YOU" = true → OkE (ctxSpec ctx) l → OkE (ctxSpec ctx) r → OkE ctx (.spec l r)
 
@@ -63,6 +63,93 @@ theorem fail_val {α : Type} {ts rest : List Lexeme} {b : α} (h : (fail : P α)
 
 
 /-! ## expressions -/
+/-! ## the types the grammar can write -/
+theorem tyOfName_ok {n : String} {t : Ty} (h : tyOfName n = some t) : scalarTy t = true ∨ t = .empty := by
+  unfold tyOfName at h
+  split at h <;> first | (injection h with h; subst h; simp [scalarTy]) | cases h
+
+theorem tokenIf_val {α : Type} {en : Ending} {f : Lexeme → Option α} {ts rest : List Lexeme} {a : α}
+    (h : tokenIf en f ts = .val a rest) : ∃ l, f l = some a := by
+  unfold tokenIf at h
+  split at h
+  · rename_i l rest'
+    split at h
+    · rename_i a' ha
+      split at h
+      · cases h
+      · injection h with h1 _
+        subst h1; exact ⟨l, ha⟩
+    · cases h
+  · cases h
+
+theorem dataTypeTok_val {en : Ending} {ts rest : List Lexeme} {t : Ty} {l : Lexeme}
+    (h : dataTypeTok en ts = .val (t, l) rest) : scalarTy t = true ∨ t = .empty := by
+  unfold dataTypeTok at h
+  obtain ⟨l', hl⟩ := tokenIf_val h
+  split at hl
+  · rename_i n _
+    cases hn : tyOfName n with
+    | none => simp [hn] at hl
+    | some t' =>
+      simp [hn] at hl
+      obtain ⟨rfl, _⟩ := hl
+      exact tyOfName_ok hn
+  · cases hl
+
+theorem psDataTypeOpt_val {en : Ending} {ts rest : List Lexeme} {t : Ty}
+    (h : psDataTypeOpt en ts = .val (some t) rest) : scalarTy t = true := by
+  unfold psDataTypeOpt at h
+  split at h
+  · rename_i t' l rest' hd
+    split at h
+    · cases h
+    · rename_i hne
+      injection h with h1 _
+      injection h1 with h1
+      subst h1
+      rcases dataTypeTok_val hd with h2 | h2
+      · exact h2
+      · subst h2; simp at hne
+  · cases h
+  · cases h
+
+theorem scalar_tyOK {t : Ty} (h : scalarTy t = true) : tyOK t = true := by
+  cases t <;> simp_all [tyOK, scalarTy]
+
+theorem scalar_tgtOK {t : Ty} (h : scalarTy t = true) : tgtOK t = true := by
+  cases t <;> simp_all [tgtOK, scalarTy]
+
+theorem psDecl_val {en : Ending} {ts rest : List Lexeme} {n : List CP} {t : Ty} {c : Bool}
+    (h : psDecl en ts = .val (n, t, c) rest) : tyOK t = true := by
+  unfold psDecl at h
+  obtain ⟨c', m1, _, h2⟩ := bind_val h
+  obtain ⟨dt, m2, hdt, h3⟩ := bind_val h2
+  cases dt with
+  | some t' =>
+    have hs := psDataTypeOpt_val hdt
+    obtain ⟨br, m3, _, h4⟩ := bind_val h3
+    cases br with
+    | some _ =>
+      obtain ⟨_, m4, _, h5⟩ := bind_val h4
+      obtain ⟨⟨n', _, _⟩, m5, _, h6⟩ := bind_val h5
+      obtain ⟨h7, _⟩ := pure_val h6
+      injection h7 with _ h7
+      injection h7 with h7 _
+      subst h7
+      simpa [tyOK] using hs
+    | none =>
+      obtain ⟨⟨n', _, _⟩, m4, _, h5⟩ := bind_val h4
+      obtain ⟨h7, _⟩ := pure_val h5
+      injection h7 with _ h7
+      injection h7 with h7 _
+      subst h7
+      exact scalar_tyOK hs
+  | none =>
+    dsimp only at h3
+    split at h3
+    · cases h3
+    · exact (fail_val h3).elim
+
 section expr
 variable (en : Ending)
 
@@ -205,19 +292,20 @@ theorem expr3_succ {n : Nat} (ih : ExprIH en n) :
   cases i with
   | none => obtain ⟨rfl, _⟩ := pure_val h3; exact he2
   | some _ =>
-    obtain ⟨t?, m3, _, h4⟩ := bind_val h3
+    obtain ⟨t?, m3, ht, h4⟩ := bind_val h3
     cases t? with
     | none => cases h4
     | some t =>
+      have hs := psDataTypeOpt_val ht
       obtain ⟨br, m4, _, h5⟩ := bind_val h4
       cases br with
       | some _ =>
         obtain ⟨_, m5, _, h6⟩ := bind_val h5
         obtain ⟨rfl, _⟩ := pure_val h6
-        exact .is_ he2
+        exact .is_ he2 (by simpa [tgtOK] using hs)
       | none =>
         obtain ⟨rfl, _⟩ := pure_val h5
-        exact .is_ he2
+        exact .is_ he2 (scalar_tgtOK hs)
 
 theorem binLevel_succ {n : Nat} (ih : ExprIH en n) :
     ∀ ctx L ts e rest, psBinLevel en (n + 1) ctx L ts = .val e rest → OkE ctx e := by
@@ -343,8 +431,8 @@ end expr
 /-! ## statements and blocks -/
 inductive OkS : Nat → PStmt → Prop
   | expr {ctx e} : OkE ctx e → OkS ctx (.expr e)
-  | decl {ctx n t c init} : OkE ctx init → OkS ctx (.decl n t c init)
-  | vla {ctx n t c len} : OkE ctx len → OkS ctx (.vla n t c len)
+  | decl {ctx n t c init} : OkE ctx init → tyOK t = true → OkS ctx (.decl n t c init)
+  | vla {ctx n t c len} : OkE ctx len → scalarTy t = true → OkS ctx (.vla n t c len)
   | assign {ctx l r} : OkE ctx l → OkE ctx r → OkS ctx (.assign l r)
   | incassign {ctx l r op} : OkE ctx l → OkE ctx r → OkS ctx (.incassign l r op)
   | ret {ctx eo} : (∀ e, eo = some e → OkE ctx e) → OkS ctx (.ret eo)
@@ -362,7 +450,8 @@ variable (en : Ending)
 theorem psVdecl_sound (fuel ctx : Nat) (ts : List Lexeme) (s : PStmt) (rest : List Lexeme)
     (h : psVdecl en fuel ctx ts = .val s rest) : OkS ctx s := by
   unfold psVdecl at h
-  obtain ⟨⟨n, t, c⟩, m1, _, h2⟩ := bind_val h
+  obtain ⟨⟨n, t, c⟩, m1, hd, h2⟩ := bind_val h
+  have hty := psDecl_val hd
   obtain ⟨br, m2, _, h3⟩ := bind_val h2
   cases br with
   | some l =>
@@ -373,12 +462,14 @@ theorem psVdecl_sound (fuel ctx : Nat) (ts : List Lexeme) (s : PStmt) (rest : Li
         obtain ⟨len, m3, h4, h5⟩ := bind_val h3
         obtain ⟨_, m4, _, h6⟩ := bind_val h5
         obtain ⟨rfl, _⟩ := pure_val h6
-        exact .vla ((exprIH en fuel).xTop ctx m2 len m3 (expect_val h4))
+        first
+        | exact .vla ((exprIH en fuel).xTop ctx m2 len m3 (expect_val h4)) (by simpa [tyOK] using hty)
+        | (simp [tyOK, scalarTy] at hty)
   | none =>
     obtain ⟨_, m3, _, h4⟩ := bind_val h3
     obtain ⟨init, m4, h5, h6⟩ := bind_val h4
     obtain ⟨rfl, _⟩ := pure_val h6
-    exact .decl ((exprIH en fuel).xTop ctx m3 init m4 (expect_val h5))
+    exact .decl ((exprIH en fuel).xTop ctx m3 init m4 (expect_val h5)) hty
 
 theorem psAssignment_sound (fuel ctx : Nat) (ts : List Lexeme) (s : PStmt) (rest : List Lexeme)
     (h : psAssignment en fuel ctx ts = .val s rest) : OkS ctx s := by
@@ -615,26 +706,72 @@ theorem blockIH : ∀ n, BlockIH en n := by
 def funcCtx : Flavor → Nat
   | .you => funcContexts.getD 0 0 | .defeat => funcContexts.getD 1 0 | .none => funcContexts.getD 2 0
 
+theorem psParams_more_val : ∀ (fuel : Nat) (acc : List (List CP × Ty × Bool)) (ts : List Lexeme) (ps : List (List CP × Ty × Bool))
+    (rest : List Lexeme), (∀ q ∈ acc, tyOK q.2.1 = true) → psParams.more en fuel acc ts = .val ps rest → ∀ q ∈ ps, tyOK q.2.1 = true
+  | 0, acc, ts, ps, rest, _, h => by rw [psParams.more] at h; cases h
+  | fuel + 1, acc, ts, ps, rest, hacc, h => by
+    rw [psParams.more] at h
+    obtain ⟨c, m1, _, h2⟩ := bind_val h
+    cases c with
+    | none =>
+      obtain ⟨rfl, _⟩ := pure_val h2
+      intro q hq; exact hacc q (List.mem_reverse.1 hq)
+    | some _ =>
+      obtain ⟨⟨n, t, c'⟩, m2, h3, h4⟩ := bind_val h2
+      have := psDecl_val (expect_val h3)
+      exact psParams_more_val fuel _ m2 ps rest (fun q hq => by
+        rcases List.mem_cons.1 hq with rfl | hq
+        · exact this
+        · exact hacc q hq) h4
+
+theorem psParams_val (fuel : Nat) (ts : List Lexeme) (ps : List (List CP × Ty × Bool)) (rest : List Lexeme)
+    (h : psParams en fuel ts = .val ps rest) : ∀ q ∈ ps, tyOK q.2.1 = true := by
+  cases fuel with
+  | zero => rw [psParams] at h; cases h
+  | succ fuel =>
+    rw [psParams] at h
+    obtain ⟨first, m1, h1, h2⟩ := bind_val h
+    cases first with
+    | none => obtain ⟨rfl, _⟩ := pure_val h2; intro q hq; cases hq
+    | some p0 =>
+      obtain ⟨n, t, c⟩ := p0
+      rcases opt_val h1 with ⟨h0, _⟩ | ⟨a, ha, hp⟩
+      · cases h0
+      · cases ha
+        have := psDecl_val hp
+        exact psParams_more_val en fuel _ m1 ps rest (fun q hq => by
+          rcases List.mem_cons.1 hq with rfl | hq
+          · exact this
+          · cases hq) h2
+
+/-- the types in a function's signature -/
+def SigOK (f : PFunc) : Prop := (tyOK f.ret = true ∨ f.ret = .empty) ∧ ∀ q ∈ f.params, tyOK q.2.1 = true
+
 theorem psFunc_sound (fuel : Nat) (ts : List Lexeme) (f : PFunc) (rest : List Lexeme)
-    (h : psFunc en fuel ts = .val f rest) : OkS (funcCtx f.fl) f.body := by
+    (h : psFunc en fuel ts = .val f rest) : OkS (funcCtx f.fl) f.body ∧ SigOK f := by
   unfold psFunc at h
-  obtain ⟨⟨rt, _⟩, m1, _, h2⟩ := bind_val h
+  obtain ⟨⟨rt, _⟩, m1, hrt, h2⟩ := bind_val h
   obtain ⟨⟨n, fl⟩, m2, _, h3⟩ := bind_val h2
   obtain ⟨_, m3, _, h4⟩ := bind_val h3
-  obtain ⟨ps, m4, _, h5⟩ := bind_val h4
+  obtain ⟨ps, m4, hps, h5⟩ := bind_val h4
   obtain ⟨_, m5, _, h6⟩ := bind_val h5
   obtain ⟨body, m6, h7, h8⟩ := bind_val h6
   obtain ⟨rfl, _⟩ := pure_val h8
   have := (blockIH en fuel).codeBlock _ m5 body m6 (expect_val h7)
-  cases fl <;> exact this
+  refine ⟨by cases fl <;> exact this, ?_, psParams_val en fuel _ ps _ hps⟩
+  rcases dataTypeTok_val hrt with h1 | h1
+  · exact Or.inl (scalar_tyOK h1)
+  · exact Or.inr h1
 
-/-- every function body and every global initialiser of the program obeys the context rules -/
+/-- every function body and every global initialiser of the program obeys the context rules, and every type written
+in it is a scalar or an array of scalars -/
 structure ProgOK (p : PProgram) : Prop where
   funcs : ∀ f ∈ p.funcs, OkS (funcCtx f.fl) f.body
   vars : ∀ v ∈ p.vars, OkS 0 v
+  sigs : ∀ f ∈ p.funcs, SigOK f
 
 theorem psProgram_sound (fuel : Nat) : ∀ (k : Nat) (vs : List PStmt) (fs : List PFunc) (ts : List Lexeme) (p : PProgram)
-    (rest : List Lexeme), (∀ f ∈ fs, OkS (funcCtx f.fl) f.body) → (∀ v ∈ vs, OkS 0 v) →
+    (rest : List Lexeme), (∀ f ∈ fs, OkS (funcCtx f.fl) f.body ∧ SigOK f) → (∀ v ∈ vs, OkS 0 v) →
     psProgram en fuel k vs fs ts = .val p rest → ProgOK p := by
   intro k
   induction k with
@@ -646,7 +783,7 @@ theorem psProgram_sound (fuel : Nat) : ∀ (k : Nat) (vs : List PStmt) (fs : Lis
     split at h
     · injection h with h1 _
       subst h1
-      exact ⟨fun f hf => hfs f (List.mem_reverse.1 hf), fun v hv => hvs v (List.mem_reverse.1 hv)⟩
+      exact ⟨fun f hf => (hfs f (List.mem_reverse.1 hf)).1, fun v hv => hvs v (List.mem_reverse.1 hv), fun f hf => (hfs f (List.mem_reverse.1 hf)).2⟩
     · split at h
       · cases h
       · cases h
@@ -796,7 +933,7 @@ theorem rulesE_of_ok {c : Nat} {e : PExpr} (h : OkE c e) : ∀ p, Rel c p = true
   | len _ ih => intro p hr; exact .len (ih p hr)
   | index _ _ ih1 ih2 => intro p hr; exact .index (ih1 p hr) (ih2 p hr)
   | un _ ih => intro p hr; exact .un (ih p hr)
-  | is_ _ ih => intro p hr; exact .is_ (ih p hr)
+  | is_ _ _ ih => intro p hr; exact .is_ (ih p hr)
   | bin _ _ ih1 ih2 => intro p hr; exact .bin (ih1 p hr) (ih2 p hr)
   | spec hy _ _ ih1 ih2 =>
     intro p hr
@@ -807,8 +944,8 @@ theorem rulesE_of_ok {c : Nat} {e : PExpr} (h : OkE c e) : ∀ p, Rel c p = true
 theorem rulesS_of_ok {c : Nat} {s : PStmt} (h : OkS c s) : ∀ p, Rel c p = true → RulesS p s := by
   induction h with
   | expr he => intro p hr; exact .expr (rulesE_of_ok he p hr)
-  | decl he => intro p hr; exact .decl (rulesE_of_ok he p hr)
-  | vla he => intro p hr; exact .vla (rulesE_of_ok he p hr)
+  | decl he _ => intro p hr; exact .decl (rulesE_of_ok he p hr)
+  | vla he _ => intro p hr; exact .vla (rulesE_of_ok he p hr)
   | assign h1 h2 => intro p hr; exact .assign (rulesE_of_ok h1 p hr) (rulesE_of_ok h2 p hr)
   | incassign h1 h2 => intro p hr; exact .incassign (rulesE_of_ok h1 p hr) (rulesE_of_ok h2 p hr)
   | ret he => intro p hr; exact .ret (fun e h => rulesE_of_ok (he e h) p hr)
